@@ -148,7 +148,11 @@ impl TransportFn<()> for Run {
                     }
                 }
                 11 | 12 => {
-                    let n = 1 + choose(if flip(1, 2) { 4 } else { 600 }) as usize;
+                    let n = match choose(6) {
+                        0 => [4095usize, 4096, 4097, 5000, 8192, 12411][choose(6) as usize],
+                        1 | 2 => 1 + choose(4) as usize,
+                        _ => 1 + choose(600) as usize,
+                    };
                     let data: Vec<u8> = (0..n).map(|i| (i as u8).wrapping_mul(13).wrapping_add(tx_expect.len() as u8)).collect();
                     let r = match choose(4) {
                         0 if n == 1 => con.send(data[0]),
@@ -247,6 +251,7 @@ impl TransportFn<()> for Run {
 pub fn run() {
     let tk = [TKind::Model, TKind::ModelLegacy, TKind::MmioModern, TKind::MmioLegacy, TKind::Pci, TKind::ModelPciLike][choose(6) as usize];
     crate::scen::queue::draw_device_policy();
+    crate::scen::queue::draw_sharing_mode();
     let size_offered = flip(1, 2);
     let emerg_offered = flip(1, 2);
     let mut feats = F_VERSION_1 | F_INDIRECT * choose(2) | F_EVENT_IDX * choose(2) | F_ACCESS_PLATFORM * choose(2) | (size_offered as u64) | (emerg_offered as u64) << 2 | choose(2) << 1;
